@@ -101,10 +101,29 @@ def exc_name(e):
     return type(e).__name__
 
 
-def outcome(f):
-    """Run f; ('ok', value) or ('exc', name)."""
+class ImplTimeout(BaseException):
+    pass
+
+
+def _on_alarm(signum, frame):
+    raise ImplTimeout()
+
+
+def outcome(f, seconds=10.0):
+    """Run f; ['ok', value] or ['exc', name].  An implementation call that does not return within
+    `seconds` is the observable ['exc', 'TIMEOUT'] (a hang is a divergence with a replay, not an
+    infrastructure error)."""
+    import signal
+    old = signal.signal(signal.SIGALRM, _on_alarm)
+    signal.setitimer(signal.ITIMER_REAL, seconds)
     try:
-        return ["ok", f()]
+        try:
+            return ["ok", f()]
+        finally:
+            signal.setitimer(signal.ITIMER_REAL, 0)
+            signal.signal(signal.SIGALRM, old)
+    except ImplTimeout:
+        return ["exc", "TIMEOUT"]
     except RecursionError:
         return ["exc", "RecursionError"]
     except Exception as e:  # noqa: BLE001
